@@ -46,6 +46,7 @@ type c07Result struct {
 	CloseMs  float64 `json:"close_ms"`
 	Marker   *bool   `json:"marker,omitempty"` // GET stream: the well-formed notification after the bad frame was dispatched
 	Broken   string  `json:"broken,omitempty"`
+	Gets     int     `json:"gets,omitempty"` // streamend: listening streams the client opened during the scenario
 }
 
 func cpuMs() float64 {
@@ -95,6 +96,11 @@ func badBytes(class string, variant int, own json.RawMessage) (payload string, r
 		// SSE frames that carry data but no event type (and multi-line data): nothing to dispatch on the legacy stream
 		return []string{`data: {"jsonrpc":"2.0","method":"notifications/verif-unknown","params":{"x":2}}`,
 			"data: first line\ndata: second line", "data:", `data: {"partial":` + "\ndata: true}"}[variant%4], true
+	case "streamend":
+		return ": end", true
+	case "otherevent":
+		// well-formed SSE frames of event types the protocol does not define: a reader ignores what it does not know
+		return []string{"event: error\ndata: upstream hiccup", "event: ping\ndata: {}", "event: close\ndata: bye", "event: message2\ndata: {\"jsonrpc\":\"2.0\"}"}[variant%4], true
 	case "fieldtype":
 		// an answer to this very call whose fields have the wrong JSON types
 		results := []string{
@@ -128,6 +134,7 @@ type c07Srv struct {
 	getF   http.Flusher
 	getUp  chan struct{}
 	calls  int32
+	gets   int32 // listening streams opened (streamend)
 }
 
 // c07NoBlank at the end of a raw payload: write it with a single line end, no blank line after it
@@ -158,6 +165,15 @@ func (s *c07Srv) serve(w http.ResponseWriter, r *http.Request) {
 			}
 		}
 		f.Flush()
+		if s.sc.Bad == "streamend" && !s.legacy {
+			// the listening stream ends cleanly right away, every time it is opened (a server that does not keep such streams)
+			s.getW, s.getF = nil, nil
+			atomic.AddInt32(&s.gets, 1)
+			io.WriteString(w, ": this server does not keep listening streams open\n\n")
+			f.Flush()
+			s.mu.Unlock()
+			return
+		}
 		s.mu.Unlock()
 		<-r.Context().Done()
 		return
@@ -307,6 +323,7 @@ func c07Run(sc c07Scenario) (res c07Result) {
 	switch sc.Client {
 	case "json", "sse", "get", "legacy":
 		srv := &c07Srv{sc: sc, legacy: sc.Client == "legacy", getUp: make(chan struct{})}
+		defer func() { res.Gets = int(atomic.LoadInt32(&srv.gets)) }()
 		ts := httptest.NewServer(http.HandlerFunc(srv.serve))
 		var err error
 		if sc.Client == "legacy" {
